@@ -1487,6 +1487,20 @@ fn run_tag_config(kind: Kind, cfg: &TagCfg, cfg_idx: usize, nodes: &[Arc<FakeNod
             out.down_node_cases += 1;
         }
         let p = if with_params { Some(&params) } else { None };
+        // the requested tags are a SET: present them in listed order, reversed, and reversed with a duplicate
+        let q_listed = q;
+        let mut qq: Vec<&'static str> = q_listed.clone();
+        match (qi + cfg_idx) % 3 {
+            1 => qq.reverse(),
+            2 => {
+                qq.reverse();
+                if let Some(f) = qq.first().copied() {
+                    qq.push(f);
+                }
+            }
+            _ => {}
+        }
+        let q = &qq;
         // the result list as (node name, Res)
         let results: Vec<(String, Res)> = match (&fleet, reduce) {
             (AnyFleet::Sync(f), false) => f.broadcast_json(&path, p, q).into_iter().map(|(name, r)| { let nm = r.node.clone(); (name, res_of_json(r, &nm, &path)) }).collect(),
